@@ -251,7 +251,7 @@ func runC09(t *simrt.Tape, o Opts) Outcome {
 			enableRandomFaults(w, t, []string{"ms.err", "ms.errafter", "ms.falsedup", "ms.race", "kms.err", "aead.err", "alloc.err"}, h.base.Expire, h.base.Revoke)
 		}
 		h.hooks.afterOp = func(k int) { aud.audit("after " + opNames[k]) }
-		n := 5 + t.Choose(50, "nops")
+		n := 5 + t.Choose(scale(o, 50, 150), "nops")
 		for i := 0; i < n && len(w.Viols) == 0; i++ {
 			h.step()
 		}
